@@ -114,8 +114,8 @@ CHECKS = {
                        "create/delete/exists/list and append_records' position_opt handling are MultiRecordLog/HashMap glue and not claimed."),
         "level_note": "trusted: kani-compiler, CBMC, CaDiCaL, the reference queue in harness/mem.rs; <= 4 retained records, payloads <= 3 bytes, concrete positions",
         "filters": ["c05_"],
-        "quick": {"harnesses": [("real", "c05_obs*_q*"), ("real", "c05_ring_wrap_q"), ("real", "c05_range_sym_q*")], "jobs": 14, "timeout": 900},
-        "thorough": {"harnesses": [("real", "c05_obs*"), ("real", "c05_ring_wrap_q"), ("real", "c05_range_sym_*")], "jobs": 16, "timeout": 2400},
+        "quick": {"harnesses": [("real", "c05_obs*_q*"), ("real", "c05_ring_wrap_q"), ("real", "c05_big_q*"), ("real", "c05_range_sym_q*")], "jobs": 14, "timeout": 900},
+        "thorough": {"harnesses": [("real", "c05_obs*"), ("real", "c05_ring_wrap_q"), ("real", "c05_big_q*"), ("real", "c05_range_sym_*")], "jobs": 16, "timeout": 2400},
         "rule": ("case = one operation script (appends of 0..3 symbolic bytes at next / +1 / +2 / rejected position, truncations at 8 "
                  "relative targets) or one symbolic-bounds range query on a constructed state; lock step with the reference; "
                  "non-trivial = at least two accepted appends; counted from CBMC's symex log"),
@@ -157,10 +157,10 @@ CHECKS = {
                        "Queue-name bytes and the sum over queues (MemQueues::size over the HashMap) are not claimed."),
         "level_note": "trusted: kani-compiler, CBMC, CaDiCaL, reference queue; per-record constant obtained from a one-record queue",
         "filters": ["c16_"],
-        "quick": {"harnesses": [("real", "c16_size_q*")], "jobs": 14, "timeout": 900},
-        "thorough": {"harnesses": [("real", "c16_size*")], "jobs": 16, "timeout": 2400},
+        "quick": {"harnesses": [("real", "c16_size_q*"), ("real", "c16_big_q*")], "jobs": 14, "timeout": 900},
+        "thorough": {"harnesses": [("real", "c16_size*"), ("real", "c16_big_*")], "jobs": 16, "timeout": 2400},
         "rule": "case = one script over appends of 0/2/3 (thorough 0..3) bytes and truncations at first / middle / far future; size and capacity compared after each step",
-        "samples": ["c16_size_q_010: scripts 90..98 of 6^3"],
+        "samples": ["c16_size_q_010: scripts 90..98 of 6^3", "c16_big_q_1_16: payloads of 1 and 16 symbolic bytes, truncated one by one (evicting < 1/8 of the buffer)"],
         "functions": ["mem::queue::MemQueue::{size,capacity,append_record,truncate_head}", "mem::rolling_buffer::RollingBuffer::{len,capacity,truncate_head,clear,extend}"],
         "bounds": {"quick": {"script_length": 3}, "thorough": {"script_length": "3 over 8 ops, 4 over 6 ops"}},
         "outside": ["MemQueues::size (names, HashMap)", "resource_usage()", "payloads > 3 bytes"],
@@ -241,13 +241,14 @@ CHECKS = {
                        "completely. 'Only queue/position/payload of an earlier append' at the API is open_with_prefs glue and not claimed."),
         "level_note": "trusted: kani-compiler, CBMC, CaDiCaL; ideal-checksum oracle; from_utf8 stub (ASCII queue names); concrete payload patterns when a damaged length makes the reader parse payload bytes as headers",
         "filters": ["c08_"],
-        "quick": {"harnesses": [("16", "c08_hdr_q*"), ("16", "c08_len_q*"), ("real", "c08_deser_q*")], "jobs": 14, "timeout": 1200},
-        "thorough": {"harnesses": [("16", "c08_hdr_*"), ("16", "c08_len_*"), ("real", "c08_deser_*")], "jobs": 16, "timeout": 3000},
+        "quick": {"harnesses": [("16", "c08_hdr_q*"), ("16", "c08_len_q*"), ("16", "c08_crc_*_q*"), ("real", "c08_deser_q*")], "jobs": 14, "timeout": 1200},
+        "thorough": {"harnesses": [("16", "c08_hdr_*"), ("16", "c08_len_*"), ("16", "c08_crc_*"), ("real", "c08_deser_*")], "jobs": 16, "timeout": 3000},
         "rule": ("stream cases = (length triple, frame, header damage kind, variant), all frames x all variants; entry cases = (buffer length N, "
                  "queue-name length) with tag, position, batch headers and payload bytes symbolic; counted from the symex log"),
         "samples": ["c08_len_q_a_f3: lengths (5,20,1), Last frame of the 3-frame entry: length field -> 0, 1, 3, 16, 0xffff",
                     "c08_hdr_q_a_f1: First frame: type -> Middle/Last/Full, type -> 0/5/0xff, header zero-filled, frame zero-filled",
-                    "c08_deser_q_n26_q2: 26 symbolic bytes, 2-byte queue name: accepted => fields == bytes, batch parses completely"],
+                    "c08_deser_q_n26_q2: 26 symbolic bytes, 2-byte queue name: accepted => fields == bytes, batch parses completely",
+                    "c08_crc_reader_q_n2: NO checksum stub: frame with symbolic type, 2 symbolic payload bytes and symbolic stored checksum: read_frame accepts iff stored == bitwise CRC-32(type ++ payload)"],
         "functions": STREAM_FUNCS + ["record::MultiPlexedRecord::deserialize", "record::MultiRecord::{new,new_unchecked,next,reset_position}", "record::RecordType::try_from"],
         "bounds": {"quick": {"B": 16, "triple": "(5,20,1)", "entry_buffer": "<= 36 bytes"}, "thorough": {"triples": "+ (9,0,30), (1,40,3), (2,3,25)", "entry_buffer": "<= 40 bytes, names 0..3 bytes"}},
         "outside": ["mapping of replay errors to Corruption and 'open succeeds or reports' (open_with_prefs)", "a complete authentic frame embedded by the user inside a payload and exposed by length damage (counts as checksum collision; DESIGN section 5)",
@@ -257,7 +258,7 @@ CHECKS = {
     "C12": {
         "design_ref": "DESIGN.md section 4, C12",
         "technique": "bounded model checking of the compiled Rust (Kani/CBMC): every damage kind and every byte cut on each frame of a 6-frame entry; batch buffers under every truncation",
-        "level_text": ("Bounded model checking that a multi-frame WAL entry is delivered all-or-nothing: a 6-frame entry between two small "
+        "level_text": ("Bounded model checking that a multi-frame WAL entry is delivered all-or-nothing: a 3-frame (thorough: 6-frame) entry between two small "
                        "ones, every frame of it damaged in every modelled way (payload, checksum, type, length incl. length -> 0) and the "
                        "stream cut after every byte of it: the entry is never delivered partially or spliced, neighbours are unaffected. "
                        "At the batch level: a batch serialized by the real MultiRecord/MultiPlexedRecord code round-trips, and every "
@@ -265,13 +266,13 @@ CHECKS = {
                        "into ONE entry and applies it after the write is MultiRecordLog glue and not claimed."),
         "level_note": "trusted: kani-compiler, CBMC, CaDiCaL; ideal-checksum oracle; from_utf8 stub; forking cases cut one call after the failure (B18)",
         "filters": ["c12_"],
-        "quick": {"harnesses": [("16", "c12_big_q*"), ("16", "c12_cut_q*"), ("real", "c12_batch_q*")], "jobs": 14, "timeout": 1500},
-        "thorough": {"harnesses": [("16", "c12_big_*"), ("16", "c12_cut_*"), ("real", "c12_batch_*")], "jobs": 16, "timeout": 3000},
+        "quick": {"harnesses": [("16", "c12_ent_*_q*"), ("16", "c12_cut_q*"), ("real", "c12_batch_q*")], "jobs": 14, "timeout": 1500},
+        "thorough": {"harnesses": [("16", "c12_ent_*"), ("16", "c12_big_*"), ("16", "c12_cut_*"), ("real", "c12_batch_*")], "jobs": 16, "timeout": 3600, "mem_gb": 16},
         "rule": "case = (frame of the large entry, damage kind, variant) or (cut offset) or (batch shape, truncation point); counted from the symex log",
-        "samples": ["c12_big_q_c_f3: lengths (1,40,3): entry 1 = First+4 Middle+Last; frame 3 (Middle): payload garbage, 4 checksum variants, 3 type changes, 5 length changes",
-                    "c12_cut_q_c_c040: cuts 40..45 inside the large entry", "c12_batch_q_1_0_2: batch of payload lengths 1,0,2 at symbolic start position, all 51 truncations"],
+        "samples": ["c12_ent_len_q_a_f3: lengths (5,20,1): entry 1 = First+Middle+Last; Last frame: length -> 0, 1, 3, 16, 0xffff",
+                    "c12_ent_crc_q_a_f2: Middle frame: payload <- symbolic garbage; checksum 4 variants", "c12_cut_q_a_c040: cuts 40..45 inside the 3-frame entry", "c12_batch_q_1_0_2: batch of payload lengths 1,0,2 at symbolic start position, all 51 truncations"],
         "functions": STREAM_FUNCS + ["record::MultiRecord::{serialize,serialize_with_pos,new,new_unchecked,next}", "record::MultiPlexedRecord::{serialize,deserialize}"],
-        "bounds": {"quick": {"B": 16, "entry": "40 bytes = 6 frames", "batch": "<= 3 records of <= 3 bytes"}, "thorough": {"entries": "+ 30 bytes = 5 frames", "batch": "all shapes over {0,1,3}"}},
+        "bounds": {"quick": {"B": 16, "entry": "20 bytes = 3 frames", "batch": "<= 3 records of <= 3 bytes"}, "thorough": {"entries": "+ 40 bytes = 6 frames, 30 bytes = 5 frames (Middle->Middle hits left out, B18)", "batch": "all shapes over {0,1,3}"}},
         "outside": ["MultiRecordLog::append_records (one batch = one entry; applied after the write)", "entries spanning two WAL files", "truncation legitimately removing a leading part"],
         "assumptions": [CRC_ASSUMPTION, DEV_ASSUMPTION, "S-utf8 stub"],
     },
